@@ -32,7 +32,10 @@ RULE = ('cases = (instance, quantity, unit, T shape, P, x, S_elements, use_refer
         'built object, a deepcopy or a to_dict/from_dict copy edited after creation; plus a unit sweep: every '
         'wrapper x T shape x (no option | single option) x every unit string that some instance STORES '
         '(Shomate.units: J/mol/K, kJ/mol/K, cal/mol/K, eV/K) and one per-mass unit, so that each object is asked '
-        'in exactly its own stored unit and in the others, with every option')
+        'in exactly its own stored unit and in the others, with every option; plus an explicit-value sweep: every '
+        'wrapper x T shape x unit x one boolean / optional option (S_elements, use_references, verbose, include_ZPE, '
+        'rev, act, raise_error, raise_warning) passed EXPLICITLY as False, as None or as its default - the values '
+        'the option axes (omitted | switched on) never pass')
 ASSUMPTIONS = ['the gas constant and the mass conversion factors are read from pmutt.constants (their accuracy '
                'is property C12); the reference combines them independently of pmutt._get_R_adj; only the RATIO '
                'between two table entries is also compared with SI conversion factors (pmc/ref/c04_units.py, 1e-7)',
@@ -95,18 +98,18 @@ UNITS = {
     'empirical': R_KEYS + PER_MASS,
     'reaction': R_KEYS + PER_MASS_SHORT,
 }
-AXES = ['inst', 'q', 'unit', 'T', 'P', 'x', 'sel', 'uref', 'verb', 'zpe', 'kw', 'form', 'rev', 'act', 'delm']
-OPTION_AXES = ['P', 'x', 'sel', 'uref', 'verb', 'zpe', 'kw', 'rev', 'act', 'delm']
+AXES = ['inst', 'q', 'unit', 'T', 'P', 'x', 'sel', 'uref', 'verb', 'zpe', 'kw', 'form', 'rev', 'act', 'delm', 'xopt']
+OPTION_AXES = ['P', 'x', 'sel', 'uref', 'verb', 'zpe', 'kw', 'rev', 'act', 'delm', 'xopt']
 SWEEP_AXES = ['P', 'x', 'sel', 'uref', 'verb', 'zpe', 'kw', 'delm']
 OPTION_NAME = dict(P='P', x='x', sel='S_elements', uref='use_references', verb='verbose', zpe='include_ZPE',
-                   kw='kwblock', rev='rev', act='act', delm='del_m')
+                   kw='kwblock', rev='rev', act='act', delm='del_m', xopt='explicit')
 FORMS = ['delta', 'state:reactants', 'state:products', 'state:ts', 'act']
 
 
 def _base(kind):
     return dict(inst=INSTANCES[kind][0], q='H', unit=BASE_UNIT, T='T500', P=None, x=None, sel=False,
                 uref=True, verb=False, zpe=False, kw=False,
-                form='delta' if kind == 'reaction' else 'plain', rev=False, act=False, delm=None)
+                form='delta' if kind == 'reaction' else 'plain', rev=False, act=False, delm=None, xopt=None)
 
 
 def _alts(kind):
@@ -140,6 +143,30 @@ UNIT_SWEEP = {
 assert sorted(set(STORED_UNIT.values()) - {BASE_UNIT}) == sorted(UNIT_SWEEP['mode'])
 UNIT_SWEEP_T = {'quick': {'mode': ['T500'], 'species': ['T500'], 'empirical': ['T500', 'arr3'], 'reaction': ['T500']},
                 'thorough': None}        # None = every T shape of the kind
+
+# ---- boolean / optional options passed EXPLICITLY with a value that the other axes never pass (fourth round of
+# seeded changes).  The axes above either omit an option or pass the value that switches it on (S_elements=True,
+# use_references=False, verbose=True, include_ZPE=True, rev=True, act=True).  A caller that forwards a flag
+# (`S_elements=formation_basis`) passes False, None or the default itself; a wrapper that tests `is not None`
+# where its twin tests truthiness, or that looks for the name in its **kwargs, differs exactly there.  Axis
+# 'xopt' = '<name>=<False|None|True>': every value of {False, None, True} that the option's own axis does not
+# pass already; raise_error / raise_warning (named parameters of every species getter, no axis of their own) get
+# all three.  Explored by sweep (e), never combined with the same option's own axis.
+XOPT_VALUES = {'S_elements': ['False', 'None'], 'use_references': ['True', 'None'], 'verbose': ['False', 'None'],
+               'include_ZPE': ['False', 'None'], 'raise_error': ['False', 'None', 'True'],
+               'raise_warning': ['False', 'None', 'True'], 'rev': ['False', 'None'], 'act': ['False', 'None']}
+XOPT_OWN_AXIS = {'S_elements': 'sel', 'use_references': 'uref', 'verbose': 'verb', 'include_ZPE': 'zpe',
+                 'rev': 'rev', 'act': 'act'}
+XOPT_PY = {'False': False, 'None': None, 'True': True}
+XOPTS = {kind: ['%s=%s' % (n, v) for n, vs in XOPT_VALUES.items() for v in vs
+                if kind == 'reaction' or n not in ('rev', 'act')] for kind in KINDS}
+# sweep (e): every wrapper x T shape x unit x one explicit value.  quick: reaction forms with rev / act at their
+# defaults, T 500 K (+ the 3-array for the empirical classes), the base unit and one unit of another family;
+# thorough: forms x rev x act, every T shape of the kind, the base unit and every unit of the unit sweep.
+XOPT_UNITS = {'quick': {'mode': [BASE_UNIT, 'eV/K'], 'species': [BASE_UNIT, 'J/g/K'],
+                        'empirical': [BASE_UNIT, 'J/g/K'], 'reaction': [BASE_UNIT, 'eV/K']},
+              'thorough': {k_: [BASE_UNIT] + v_ for k_, v_ in UNIT_SWEEP.items()}}
+XOPT_T = UNIT_SWEEP_T
 
 # ---- histories with two objects in one process (added after the seeded changes).  A case is
 # (how, A, B, quantity, form, unit); the sequence is A, B, A again - each value against the object's OWN
@@ -185,7 +212,8 @@ PLANNED_TAGS = ['kind:mode', 'kind:species', 'kind:empirical', 'kind:reaction',
                 'effective:P', 'effective:x', 'effective:S_elements', 'effective:use_references',
                 'effective:verbose', 'effective:include_ZPE', 'effective:kwblock', 'effective:rev',
                 'effective:act', 'effective:del_m', 'effective:del_m=None',
-                'refused:per-mass-without-composition', 'agree:both-forms-raise'] + \
+                'refused:per-mass-without-composition', 'agree:both-forms-raise', 'effective:use_references=None'] + \
+               ['explicit:' + x_ for x_ in XOPTS['reaction']] + \
                ['unit:the-stored-unit-of-the-object(%s)' % u_ for u_ in sorted(set(STORED_UNIT.values()))] + \
                ['stored-unit:%s+effective:%s' % (w_, o_) for w_ in ('asked', 'another-asked')
                 for o_ in ('P', 'x', 'S_elements', 'kwblock')]
@@ -213,12 +241,25 @@ def bounds(tier):
                 unit_sweep=dict(what='instance x quantity (x form x rev x act) x T shape x (no option | one option away '
                                      'from the defaults) x unit', units=UNIT_SWEEP, stored_unit_of_instance=STORED_UNIT,
                                 T_shapes=UNIT_SWEEP_T[tier] or 'every T shape of the kind'),
+                explicit_value_sweep=dict(what='instance x quantity x form (thorough: x rev x act) x T shape x unit x one '
+                                               'option passed explicitly with a value of {False, None, True} that its '
+                                               'own axis never passes', values=XOPT_VALUES, units=XOPT_UNITS[tier],
+                                          T_shapes=XOPT_T[tier] or 'every T shape of the kind'),
                 shards=N_SHARDS)
 
 
 # --------------------------------------------------------------- enumeration
 def _applicable(kind, c):
     form = c['form']
+    xopt = c.get('xopt')
+    if xopt:
+        name = xopt.split('=')[0]
+        own = XOPT_OWN_AXIS.get(name)
+        if own and c[own] != _base(kind)[own]:
+            return False            # the option's own axis passes it already: one value per name
+        if name in ('rev', 'act') and (kind != 'reaction' or form.startswith('state:')
+                                       or (name == 'act' and form == 'act')):
+            return False
     if kind != 'reaction':
         return True
     if form.startswith('state:') and (c['rev'] or c['act']):
@@ -296,6 +337,21 @@ def _gen(tier):
                                 if _ndev(c, base) <= k or not _applicable(kind, c):
                                     continue
                                 yield kind, c
+        # explicit-value sweep (e): every wrapper x T shape x unit x one boolean / optional option passed
+        # explicitly as False / None / its default (XOPT_VALUES); 'xopt' is no axis of the deviation set, so
+        # nothing here was generated above
+        fra_e = fra if tier == 'thorough' else [(f, False, False) for f in (FORMS if kind == 'reaction' else ['plain'])]
+        T_shapes = XOPT_T[tier][kind] if XOPT_T[tier] else [base['T']] + alts['T']
+        for inst in INSTANCES[kind]:
+            for q in QUANTITIES[kind]:
+                for f, rv, ac in fra_e:
+                    for unit in XOPT_UNITS[tier][kind]:
+                        for T in T_shapes:
+                            for xopt in XOPTS[kind]:
+                                c = dict(base)
+                                c.update(inst=inst, q=q, form=f, rev=rv, act=ac, T=T, unit=unit, xopt=xopt)
+                                if _applicable(kind, c):
+                                    yield kind, c
     for c in _gen_pairs(tier):
         yield 'pair', c
 
@@ -641,13 +697,18 @@ def options(c, meta, base=False):
         o['act'] = True
     if c.get('delm') is not None:
         o['del_m'] = None if c['delm'] == 'None' else c['delm']
+    if c.get('xopt'):
+        name, val = c['xopt'].split('=')
+        if name in o:
+            raise RuntimeError('explicit option %s collides with its own axis' % name)
+        o[name] = XOPT_PY[val]
     return o
 
 
 def deviating_options(c):
     b = _base('species')
-    return [OPTION_NAME[a] + ('=None' if a == 'delm' and c[a] == 'None' else '')
-            for a in OPTION_AXES if c[a] != b[a]]
+    return [c[a] if a == 'xopt' else OPTION_NAME[a] + ('=None' if a == 'delm' and c[a] == 'None' else '')
+            for a in OPTION_AXES if c.get(a) != b[a]]
 
 
 def signature(c):
@@ -738,6 +799,8 @@ def evaluate(c, ctx):
         ctx.tag('unit:the-stored-unit-of-the-object(%s)' % unit)
     ctx.tag('quantity:' + ('energy-like' if energy else 'entropy-like'))
     ctx.tag('form:' + form.split(':')[0])
+    if c.get('xopt'):
+        ctx.tag('explicit:' + c['xopt'])
 
     # ---- per-mass unit on an object without composition: must be refused
     elements = meta['elements'] if kind in ('species', 'empirical') else None
@@ -1065,7 +1128,8 @@ LEVEL_TEXT = ('Deviation-bounded exhaustive product enumeration on the real gett
               'full instance x quantity x unit (x form x rev x act) product and a sweep of every wrapper x T shape x single '
               'option, and the same sweep (with and without an option) in every unit string stored by an object of the '
               'alphabet (Shomate.units = J/mol/K, kJ/mol/K, cal/mol/K, eV/K; each object is asked in its own stored unit '
-              'and in the others) and in one per-mass unit; each case compares get_X(units) with '
+              'and in the others) and in one per-mass unit, and a sweep of every wrapper x unit x one boolean / optional '
+              'option passed explicitly as False / None / its default; each case compares get_X(units) with '
               'get_XoR[T] x R(unit) [x T] [/ M] built independently from pmutt.constants, two units against each '
               'other (library factor and SI factor), and the option shift on both forms; then repeats the call '
               '(after overwriting the returned container), checks that the arguments were left alone and, for array '
